@@ -13,7 +13,8 @@ Q == Tier = "quick"
 Ks == IF Q THEN {2, 8, 32} ELSE {2, 3, 4, 8, 16, 32}
 \* "cancelrace": every client also calls Cancel() on its own query from a second goroutine while Exec runs
 \* "distfallback": a distributed engine whose remote engines answer part of the queries through their fallback
-Mixes == {"same", "basket", "fallback", "dist", "samefallback", "cancelrace", "distfallback"}
+\* "samecancel": every client runs the very same query; every other client cancels its own while it runs
+Mixes == {"same", "basket", "fallback", "dist", "samefallback", "cancelrace", "distfallback", "samecancel"}
 Basket == << "sum by (a) (m)", "m", "rate(m[3s])", "topk(2, m)", "m * on (a) group_left () n", "abs(m{a=\"x\"}) - m", "quantile by (a) (0.5, m)",
              "scalar(n{a=\"x\"}) + m", "-m", "m @ 4", "clamp_min(m, scalar(p))", "sum(m) / count(m)", "histogram_quantile(0.5, h_bucket)",
              "absent(nope)", "max_over_time(m[4s:2s])", "m and n", "label_replace(m, \"c\", \"$1\", \"a\", \"(.*)\")", "sort(m)",
